@@ -164,7 +164,15 @@ func (fs *FileSystemOperation) SaveGatewayConfig(content []byte) error {
 }
 
 func (fs *FileSystemOperation) SaveMetricsConfig(content []byte) error {
-	return fs.storeFileOnDisk(environment.GetMetricsConfigFilePath(), content)
+	// The user's metrics file is the one that is backed up, cleaned and restored.
+	// GetMetricsConfigFilePath() falls back to the built-in default file as soon
+	// as the user's file does not exist - which is the case right after it has
+	// been cleaned - and the payload then overwrote the default file.
+	filePath := fs.files[metricsConfigFileKey]
+	if filePath == "" {
+		filePath = environment.GetMetricsConfigFilePath()
+	}
+	return fs.storeFileOnDisk(filePath, content)
 }
 
 func (fs *FileSystemOperation) cleanUpFile(filePath string) error {
